@@ -30,6 +30,8 @@ rule ep { condition: entrypoint >= 0 }
 rule epv { condition: entrypoint == 5344 or entrypoint == 0x200 }
 rule fs { condition: filesize > 100 }
 rule fs0 { condition: filesize == 0 }
+rule fsd { condition: defined filesize }
+rule fsx { condition: filesize < 50 or uint8(filesize - 1) == 0x61 }
 rule pe1 { condition: pe.number_of_sections > 0 and pe.entry_point >= 0 }
 rule elf1 { condition: elf.type == elf.ET_EXEC or elf.type == elf.ET_DYN }
 rule m1 { condition: math.entropy(0, filesize) > 1.0 }
@@ -103,23 +105,37 @@ def make_inputs(tier):
         9: ("buf", rd(elf)[:64] + b"abc"),
         10: ("fill", (b"q", 1100000)),                       # > YR_MAX_STRING_MATCHES occurrences of "qq"
         11: ("buf", b"xx qq yy qqq f03zzyx zz qq"),
+        # iterators WITHOUT a file_size function (filesize undefined), one and several blocks
+        12: ("blocks", (None, [(0, b"hello abc zz no size a")])),
+        13: ("blocks", (None, [(0, rd("tiny")), (40000, b"tail abc"), (40050, b"zz a")])),
+        # the other entry points: yr_scanner_scan_file / yr_scanner_scan_fd (size known through the mapping)
+        14: ("file", b"file entry point abc abbc zz hello a"),
+        15: ("fd", rd("tiny")),
+        16: ("file", rd(elf)),
     }
     return inputs
 
 
-def scan_lines(inp, script, nr_plan, start=True):
-    """harness lines that start a scan of the input; nr_plan: list of block numbers answered not-ready"""
+def norm_flags(f):
+    return f if f & 24 else f | 24
+
+
+def scan_lines(inp, script, nr_plan, start=True, flags=24):
+    """harness lines that start a scan of the input; nr_plan: list of block numbers answered not-ready.
+    flags: h_scan's scanfile/scanfd commands call yr_scanner_set_flags themselves: they are given the scanner's flags"""
     kind, d = inp
     sl = ["script " + (",".join("%d:%d" % (k, 1 if a == "a" else 2) for k, a in script) if script else "-")]
     if kind == "buf":
         return sl + ["scan " + hx(d)]
+    if kind in ("file", "fd"):
+        return sl + ["resetidx", "scan%s %d %s" % (kind, norm_flags(int(flags)), hx(d))]
     if kind == "fill":
         return sl + ["strings 0", "scanfill %s %d" % (hx(d[0]), d[1]), "strings 1"]   # (a million matches are not printed)
     fsz, blocks = d
     pat = ""
     for k, b in enumerate(nr_plan):
         pat += "0" * (b + k - len(pat)) + "1"
-    return sl + ["blocks %d " % fsz + " ".join("%d:%s" % (b, hx(x)) for b, x in blocks), "notready " + (pat or "-"), "hblocks start"]
+    return sl + ["blocks %s " % ("-" if fsz is None else fsz) + " ".join("%d:%s" % (b, hx(x)) for b, x in blocks), "notready " + (pat or "-"), "hblocks start"]
 
 
 def nblocks(inp):
@@ -127,7 +143,8 @@ def nblocks(inp):
 
 
 def fsize(inp):
-    return len(inp[1]) if inp[0] == "buf" else inp[1][1] * len(inp[1][0]) if inp[0] == "fill" else inp[1][0]
+    """what the scan's iterator reports as file size; None: the iterator has no file_size function"""
+    return len(inp[1]) if inp[0] in ("buf", "file", "fd") else inp[1][1] * len(inp[1][0]) if inp[0] == "fill" else inp[1][0]
 
 
 def val_h(ty, v):
@@ -182,7 +199,7 @@ def gen_history(r, inputs, tier, hazard=None):
     """list of ops: dict(m=model token, h=[harness lines], kind=...)"""
     ops = []
     n = r.range(3, 8)
-    ids = [1, 2, 3, 4, 5, 7, 8, 9, 4, 1]
+    ids = [1, 2, 3, 4, 5, 7, 8, 9, 4, 1, 12, 13, 12, 14, 15, 16]
     if hazard is None and r.chance(1, 12 if tier == "quick" else 6):
         ids = ids + [6, 6, 6]
     suspended = None
@@ -201,8 +218,12 @@ def gen_history(r, inputs, tier, hazard=None):
                 nb = nblocks(inp)
                 plan = sorted(set(r.range(1, nb) for _ in range(r.range(1, 2))))
             sc = ",".join("%d=%s" % (k2, a) for k2, a in script) or "-"
+            fl = 24
+            if inp[0] in ("file", "fd"):
+                fl = r.choice([24, 8, 16, 1, 26])
+                ops.append(dict(kind="set", m="sf:%d" % fl, h=["sflags %d" % fl]))
             ops.append(dict(kind="scan", inp=i, script=script, plan=plan,
-                            m="scan:%d:%s:%s" % (i, sc, plan[0] if plan else "-"), h=scan_lines(inp, script, plan)))
+                            m="scan:%d:%s:%s" % (i, sc, plan[0] if plan else "-"), h=scan_lines(inp, script, plan, flags=fl)))
             if plan:
                 if hazard == "abandon" and r.chance(2, 3):
                     hazard_done = True
@@ -279,7 +300,7 @@ def ctx_canon_impl(d, extnames):
             p = it.split(":", 2)
             objs.append((p[0], p[1] + (p[2] if len(p) > 2 else "")))
     fib = d["fibers"].split("/")
-    return dict(ep=d["ep"], fs=d["fsize"], fl=d["flags"], to=d["timeout"], nb=d["nb"],
+    return dict(ep=d["ep"], fs=d["fsize"], fl=d["flags"], to=d["timeout"], nb=d["nb"], le="0" if d.get("lasterr", "-") == "-" else "1",
                 d=d["rmf"] + d["nsu"] + d["std"] + d["m"] + d["um"] + d["req"], objs=sorted(objs),
                 pool_all_free=(fib[0] == fib[1]), pool=int(fib[1]) + int(d["positions"]))
 
@@ -291,7 +312,7 @@ def ctx_canon_model(s):
         if it:
             k, v = it.split(":")
             objs.append((EXT[int(k)][0], v[0] + (v[1:] if v[0] != "s" else v[1:])))
-    return dict(ep=d["ep"], fs=d["fs"], fl=d["fl"], to=d["to"], nb=d["nb"], d=d["d"], objs=sorted(objs), pool=int(d["pool"]),
+    return dict(ep=d["ep"], fs=d["fs"], fl=d["fl"], to=d["to"], nb=d["nb"], le=d.get("le", "0"), d=d["d"], objs=sorted(objs), pool=int(d["pool"]),
                 alive=d["alive"], leaked=int(d["leaked"]), live=int(d["live"]), susp=d["susp"])
 
 
@@ -312,7 +333,7 @@ def run(chk):
             eps[i] = ("-", "-")
             continue
         for fl in (24, 26):
-            cases.append(("ep%d_%d" % (i, fl), prologue(False) + ["scanner 0", "sflags %d" % fl] + scan_lines(inp, [], []) + ["ctx", "sdestroy"] + EPILOGUE))
+            cases.append(("ep%d_%d" % (i, fl), prologue(False) + ["scanner 0", "sflags %d" % fl] + scan_lines(inp, [], [], flags=fl) + ["ctx", "sdestroy"] + EPILOGUE))
     out, _ = vlib.run_cases(h, cases)
     for i, inp in inputs.items():
         if inp[0] != "fill":
@@ -322,7 +343,7 @@ def run(chk):
                 v.append(parse_ctx(cl[0])["ep"] if cl else "-")
             eps[i] = tuple(v)
     chk.note(entry_points={str(k): v for k, v in eps.items()})
-    in_tokens = " ".join("%d=%s/%s/%d/%d" % (i, eps[i][0], eps[i][1], fsize(inp), nblocks(inp)) for i, inp in inputs.items())
+    in_tokens = " ".join("%d=%s/%s/%s/%d" % (i, eps[i][0], eps[i][1], "-" if fsize(inp) is None else fsize(inp), nblocks(inp)) for i, inp in inputs.items())
 
     # ---- histories
     nh = 40 if tier == "quick" else 400
@@ -342,6 +363,23 @@ def run(chk):
            for i, sc in ((6, []), (6, []), (4, []), (6, [(0, "a")]), (4, []))]
     ops.append(dict(kind="destroy", m="destroy", h=["sdestroy"]))
     hists.append(("toomany0", ops, False))
+    # file_size: a scan whose size is known (scan_mem, scan_file, scan_fd, iterator with file_size) followed by a
+    # yr_scanner_scan_mem_blocks scan whose iterator has NO file_size function: filesize must be undefined again
+    def scf(i, fl=24):
+        return [dict(kind="set", m="sf:%d" % fl, h=["sflags %d" % fl]),
+                dict(kind="scan", inp=i, script=[], plan=[], m="scan:%d:-:-" % i, h=scan_lines(inputs[i], [], [], flags=fl))]
+    def res():
+        return dict(kind="resume", m="resume:-", h=["hblocks resume"])
+    dst = dict(kind="destroy", m="destroy", h=["sdestroy"])
+    fam = [("fsize0", [sc(12), sc(4), sc(12), sc(1), sc(13), sc(5), sc(12), dst]),
+           ("fsize1", scf(14) + [sc(12)] + scf(15) + [sc(13, [1]), res(), sc(7), sc(12), dst]),
+           ("fsize2", [sc(8), sc(13), sc(7, [1]), res(), sc(12)] + scf(16, 16) + [sc(12), sc(13, [2]), res(), dst])]
+    if tier != "quick":
+        fam += [("fsize3", [sc(6), sc(12), sc(10), sc(13), dst]),
+                ("fsize4", scf(15, 26) + [sc(12)] + scf(14, 1) + [sc(13), sc(12), dst]),
+                ("fsize5", [sc(9), sc(12), sc(3), sc(13, [1]), sc(4), sc(12), dst])]
+    for hid, ops in fam:
+        hists.append((hid, ops, False))
     # strings_temp_disabled must be cleared for EVERY string: a string with a high global index (beyond the first
     # byte / the first 64-bit word / the first num_rules bits of the bitmap) hits YR_MAX_STRING_MATCHES with the
     # callback continuing, then the same scanner scans a small buffer that contains it
@@ -409,7 +447,7 @@ def run(chk):
                     have.add(int(k))
                     name, ty, _ = EXT[int(k)]
                     lines.append("sdef%s %s %s" % ("i" if v[0] == "i" else "s", name, v[1:] if v[0] == "i" else (v[1:] or "-")))
-            lines += ["setep %s" % ep] + scan_lines(inputs[int(iid)], [], []) + ["ctx", "sdestroy"] + EPILOGUE
+            lines += ["setep %s" % ep] + scan_lines(inputs[int(iid)], [], [], flags=flags) + ["ctx", "sdestroy"] + EPILOGUE
             qcases.append(("q%d" % qi, lines, (fam, key), fam == "std" and 3 not in have))
         qout, _ = vlib.run_cases(h, [(a, b) for a, b, _, _ in qcases], timeout=1500)
         for qid, lines, (fam, key), notime in qcases:
@@ -427,7 +465,10 @@ def run(chk):
                 msgs = ";".join(t for t in msgs.split(";") if t.split(":")[2:3] != ["xm"])
             c = parse_ctx(cl[0])
             fib = c["fibers"].split("/")
-            table[key] = "%s:%d:%d:%d" % (intern.msgs(msgs), rc, 0 if c["fsize"] == "-" else 1, int(fib[1]) + int(c["positions"]))
+            # did the scan get as far as yr_execute_code?  file_size is assigned right before it; when the iterator has no
+            # file_size function that field says nothing, but then any message other than T/S, or success, does
+            reached = c["fsize"] != "-" or rc == 0 or any(t[:1] in "IDCMNF" for t in msgs.split(";") if t)
+            table[key] = "%s:%d:%d:%d" % (intern.msgs(msgs), rc, 1 if reached else 0, int(fib[1]) + int(c["positions"]))
     chk.note(oracle_entries=sum(len(t) for t in tables.values()), oracle_rounds=rnd + 1)
 
     # ---- compare model and implementation, operation by operation
@@ -442,7 +483,7 @@ def run(chk):
         replay = {"history": hid, "ops": [o["m"] for o in ops], "harness_lines": dict(hcases)[hid], "impl": out.get(hid, [])[-40:],
                   "model": toks, "rules": rules_text(wt),
                   "how": "feed 'case x' + harness_lines + 'endcase' to the h_hist binary (lib/build.py harness('h_hist')); "
-                         "inputs: 1 tests/data/tiny, 2 tiny-idata-*, 3 elf32_*, 4 text, 5 empty, 6 'a'*1000100, 7/8 block lists, 10 'q'*1100000, 11 small text with qq"}
+                         "inputs: 12/13 block lists without file_size, 14/16 scan_file, 15 scan_fd, 1 tests/data/tiny, 2 tiny-idata-*, 3 elf32_*, 4 text, 5 empty, 6 'a'*1000100, 7/8 block lists, 10 'q'*1100000, 11 small text with qq"}
         if len(toks) != len(ops) or any(t.startswith(("need", "exception", "unknown")) for t in toks):
             chk.violation("model-runner", "model runner failed on %s: %s" % (hid, ml[-300:]), replay, found_input=False)
             continue
@@ -509,7 +550,7 @@ def run(chk):
                 break
             ic = ctx_canon_impl(parse_ctx(res[pos]), None)
             pos += 1
-            diffs = [k for k in ("ep", "fs", "fl", "to", "nb", "d", "objs") if ic[k] != ms[k] and not (k == "d" and ms["susp"] == "1")]
+            diffs = [k for k in ("ep", "fs", "fl", "to", "nb", "le", "d", "objs") if ic[k] != ms[k] and not (k == "d" and ms["susp"] == "1")]
             if ic["pool"] != ms["pool"] and ms["susp"] == "0" and not hid.startswith("abandon"):     # (a waiting scan has allocated some of its fibers already)
                 diffs.append("pool")
             if not ic["pool_all_free"]:
